@@ -89,6 +89,12 @@ def footprint_peers():
         if role == 'server':
             for extra in ([], ['-1'], ['-2']):
                 out.append(('%s/args=%s' % (name, ''.join(extra) or 'default'), cfg, extra))
+    # servers that announce protocol 1.99 (SSH-2 with SSH-1 compatibility) and speak SSH-2: one handshake like any SSH-2 server
+    for bn in (b'SSH-1.99-OpenSSH_3.9p1', b'SSH-1.99-Cisco-1.25'):
+        c = peers.ServerCfg(base)
+        c['banner'] = bn
+        for extra in ([], ['-2'], ['--skip-rate-test']):
+            out.append(('announces-1.99/%s/args=%s' % (bn.decode().split('-')[2], ''.join(extra) or 'default'), c, extra))
     stub = peers.ServerCfg(banner=b'SSH-1.5-Stubborn_1.0', wrong_version_always=True)
     stub2 = peers.ServerCfg(banner=b'SSH-2.0-Stubborn_2.0', wrong_version_always=True)
     for extra in ([], ['-1'], ['-2']):
@@ -103,22 +109,25 @@ def targets_leg(ck, dh):
     arch = c09.archetypes()
     names = sorted(arch)
     ip = '10.0.0.7'
-    layouts = [[(ip, 2201), (ip, 2202), (ip, 2203)], [(ip, 22), ('10.0.0.8', 22), (ip, 2222)], [('samehost.example', 2201), ('samehost.example', 2202)]]
+    layouts = [[(ip, 2201), (ip, 2202), (ip, 2203)], [(ip, 22), ('10.0.0.8', 22), (ip, 2222)], [('samehost.example', 2201), ('samehost.example', 2202)],
+               # a line with a port followed by lines without one (those are on the default port)
+               [(ip, 2201), (ip, None)], [('10.0.0.8', 2207), (ip, None), ('10.0.0.9', None)]]
     scs, meta = [], []
     for lay in layouts:
         for threads in (1, 2):
             for skip in (True, False):
                 servers = {}
                 resolver = {}
-                for i, (h, p) in enumerate(lay):
+                lay_full = [(h, 22 if p is None else p) for h, p in lay]
+                for i, (h, p) in enumerate(lay_full):
                     addr = ip if h.endswith('.example') else h
                     servers[(addr, p)] = arch[names[i % len(names)]]
                     if h.endswith('.example'):
                         import socket as _socket
                         resolver[h] = [(_socket.AF_INET, addr)]
                 scs.append({'argv': ['-n', '--threads', str(threads)] + (['--skip-rate-test'] if skip else []) + ['-T', '{tmp}/targets.txt'], 'servers': servers, 'resolver': resolver,
-                            'files': {'targets.txt': ''.join('%s:%d\n' % hp for hp in lay)}, 'fresh': True})
-                meta.append((lay, threads, skip, servers))
+                            'files': {'targets.txt': ''.join(('%s\n' % h) if p is None else ('%s:%d\n' % (h, p)) for h, p in lay)}, 'fresh': True})
+                meta.append((lay_full, threads, skip, servers))
     for (lay, threads, skip, servers), sc, r in zip(meta, scs, runner.run_many(scs)):
         ck.evaluated()
         replay = {'targets': ['%s:%d' % hp for hp in lay], 'threads': threads, 'argv': sc['argv'], 'exit': r.get('exit'), 'nconn': r.get('nconn'), 'stdout': (r.get('stdout') or '')[-1500:]}
